@@ -170,7 +170,14 @@ func c11Moments(c *ctx) {
 		if i%2 == 0 {
 			try(func() { shared = s.GetLunar() })
 		}
-		for _, sect := range []int{2, 1} {
+		sects := []int{2, 1}
+		if m[3] == 23 && i%2 == 1 {
+			// a convention argument outside {1, 2}: whatever the chart makes of it, every attribute it reports must
+			// still be the attribute of the pillars it reports (dependence groups only; a refusal is not an observation)
+			sects = append(sects, []int{3, 0, -1}[(i/2)%3])
+		}
+		for _, sect := range sects {
+			extra := sect != 1 && sect != 2
 			f := obj{"ev": "C11Moment", "at": m[:], "sect": sect}
 			p, _ := try(func() {
 				l := shared
@@ -233,6 +240,9 @@ func c11Moments(c *ctx) {
 				}
 			})
 			f["p"] = b2i(p)
+			if extra {
+				continue
+			}
 			if c.arg("nomoments", "") == "" || p {
 				c.emit(f)
 			}
